@@ -103,6 +103,35 @@ def register(an):
             return f
         return deco
 
+    # ------------------------------------------------------------------ operator traits on primitive integers (`a | *b` written `a | b`
+    # with b: &u8 goes through `impl BitOr<&u8> for u8`; the forwarding impls do what the operator does)
+    OPS = {'core::ops::bit::BitOr::bitor': 'BitOr', 'core::ops::bit::BitAnd::bitand': 'BitAnd', 'core::ops::bit::BitXor::bitxor': 'BitXor',
+           'core::ops::arith::Add::add': 'Add', 'core::ops::arith::Sub::sub': 'Sub', 'core::ops::arith::Mul::mul': 'Mul',
+           'core::ops::bit::Shl::shl': 'Shl', 'core::ops::bit::Shr::shr': 'Shr'}
+
+    @model(*OPS)
+    def m_int_operator(an, t, args, frame, st, c):
+        ga = [an.subst_ty(g, frame) for g in (c.get('ga') or [])]
+        if len(ga) != 2 or len(args) != 2:
+            return NotImplemented
+        base = [g.lstrip('&').strip() for g in ga]
+        if base[0] not in INT_RANGES or base[1] not in INT_RANGES:
+            return NotImplemented
+        vals = []
+        for g, a in zip(ga, args):
+            vals.append(deref_val(an, a, frame, st) if g.startswith('&') else a)
+        op = OPS[c['fn']]
+        if op in ('Add', 'Sub', 'Mul'):
+            # the operator panics on overflow in debug builds: the obligation is recorded like for the MIR operator
+            r = an.binop(op + 'WithOverflow', vals[0], vals[1], base[0], frame, st)
+            if r is not None and r[0] == 'tuple':
+                flag = r[1][1]
+                okf = flag[0] == 'bool' and flag[1] == ('const', False)
+                an.obligation(frame, 'overflow', op, t.sp, okf, None)
+                return r[1][0]
+            return r
+        return an.binop(op, vals[0], vals[1], base[0], frame, st)
+
     # ------------------------------------------------------------------ panics
     @suffix('core::panicking::panic', 'core::panicking::panic_fmt', 'core::panicking::panic_explicit', 'core::panicking::unreachable_display',
             'core::panicking::panic_display', 'core::panicking::panic_nounwind', 'core::panicking::assert_failed',
@@ -1113,6 +1142,8 @@ def register(an):
                     tmp = ('L', frame.id, 10**6 + int(an.nid().rsplit(':', 1)[1]), ())
                     st.env[(frame.id, tmp[2])] = a
                     r = call_closure(an, it[3], [('ref', tmp)], frame, st, t)
+                    if __import__('os').environ.get('LRS_DEBUG_FOLD'):
+                        print('FILTER', a, '->', r)
                     if r is None or r[0] != 'bool' or not (isinstance(r[1], tuple) and r[1][:1] == ('const',)):
                         return None
                     if r[1][1]:
@@ -1135,17 +1166,26 @@ def register(an):
             s3 = st.copy()
             try:
                 items = concrete_items(an, it, frame, s3, t)
+                if __import__('os').environ.get('LRS_DEBUG_FOLD'):
+                    print('FOLD it=', str(it)[:300], 'items=', None if items is None else len(items))
+                    if it[1] == 'filter' and it[2][1] == 'slice':
+                        sr_ = it[2][2]
+                        print('ELEM0', str(an.read_ptr(('E', sr_, Lin.const(0)), frame, s3))[:300])
+                        print('ARR', str(an.read_ptr(sr_[1], frame, s3))[:400])
                 acc = args[1]
                 if items is not None:
                     for a in items:
                         acc = call_closure(an, args[2], [acc, a], frame, s3, t)
+                        if __import__('os').environ.get('LRS_DEBUG_FOLD'):
+                            print('ACC', acc)
                         if acc is None:
                             break
                     if acc is not None:
                         st.env, st.mem, st.lo, st.hi, st.sets, st.cons = s3.env, s3.mem, s3.lo, s3.hi, s3.sets, s3.cons
                         return acc
             except Exception:
-                pass
+                if __import__('os').environ.get('LRS_DEBUG_FOLD'):
+                    raise
         # run the element pipeline once on an abstract item (twice, to let state-carrying closures reach a fixpoint-ish)
         s2 = st.copy()
         item = iter_item(an, it, frame, s2, t)
